@@ -46,6 +46,7 @@ def _analyses():
     from .analyses import kernel_api as ka
     from .analyses import kernel_core as kc
     from .analyses import kernel_trace as kt
+    from .analyses import kernel_more as km
 
     vjp_axis = lambda c, w: a7_axis.hazards(c, w, modes=("vjp",))
     jvp_axis = lambda c, w: a7_axis.hazards(c, w, modes=("jvp",))
@@ -65,7 +66,7 @@ def _analyses():
             "(value, tangent) order and zero tangents of the right space (A13.zero/A2.tuple).",
         ),
         "C03": (
-            [kc.backward_pass, kc.dispatch, kt.wrapper, kc.raise_discipline],
+            [kc.backward_pass, km.toposort, kc.dispatch, kt.wrapper, kc.raise_discipline],
             "Chain rule over arbitrary graphs: path property of one backward_pass iteration (node.vjp exactly once, one add_outgrads per parent edge keyed by that parent, "
             "accumulating into the current entry), alignment of parents/argnums/rules in the wrapper and in all dispatch branches (A13.align), node constructor slots (A2.slot).",
         ),
@@ -80,7 +81,7 @@ def _analyses():
             "zeros of the argument's / output's space on independent paths (A13.zero), one Box and one VSpace per differentiable type (A1.types), container layout (A2.layout).",
         ),
         "C06": (
-            [kt.trace_fn, kt.wrapper, kt.notrace_wrapper, kt.find_top, kt.new_trace, ka.arraybox_table, ka.operators, ka.wrapper_signatures, kc.inplace_sites],
+            [kt.trace_fn, kt.wrapper, kt.notrace_wrapper, kt.find_top, kt.new_trace, km.wrap_namespace, ka.arraybox_table, ka.operators, ka.wrapper_signatures, kc.inplace_sites],
             "Value transparency: trace() returns the unboxed value; the wrapper calls the raw function unchanged on plain inputs and unboxes exactly one level; ArrayBox's "
             "operator/method/property table follows the Python data model (A14); operators return primal/aux untouched (A15); re-implemented wrappers keep NumPy's optional "
             "parameter names, positions and defaults (A6.wrapsig); no in-place write to a parameter (A9.inplace).",
@@ -111,12 +112,12 @@ def _analyses():
             "indices accumulate (A9.scatter), __getitem__/untake pairing on the same index and the argument's space (A2.repo), both sparse object types registered (A1.types), 'same' JVPs (A1.lin).",
         ),
         "C12": (
-            [a2.layout, a2.variadic, _dict_keys, ka.container_boxes, _container_spaces, _flatten_order],
+            [a2.layout, a2.variadic, _dict_keys, ka.container_boxes, km.container_vspaces, _container_spaces, _flatten_order],
             "Containers: offset arithmetic of sequence_extend / make_sequence (A2.layout, A2.variadic), content accessors of SequenceBox/DictBox go through the primitive (A14.containers), "
             "every registered container space resolves its abstract members, flatten destructures make_vjp as (unflatten, flat) and visits dict keys in sorted order.",
         ),
         "C13": (
-            [a1.types, _vspace_members, a4.vspace, kc.purity, kc.ownership],
+            [a1.types, _vspace_members, a4.vspace, km.container_vspaces, kc.purity, kc.ownership],
             "Only the non-numeric clauses: registry agreement (A1.types), every registered space resolves zeros/ones/standard_basis/randn/_inner_prod to a concrete body and __eq__ "
             "compares type and structure fields, ComplexArrayVSpace overrides (A4.vspace), purity and mut_add(None, x) freshness (A9.pure).",
         ),
@@ -126,13 +127,13 @@ def _analyses():
             "facts about NumPy) for both node types (A1.sym); comparisons map to untraced functions, __bool__/shape/len read the raw value (A14); the notrace branch returns plain values.",
         ),
         "C15": (
-            [kc.raise_discipline, ka.guard_dominance, ka.option_domains, ka.sibling_guards, ka.raw_calls_in_wrappers, ka.arraybox_table, ka.operators, a1.nograd, a1.none_rules, _namespace_classes],
+            [kc.raise_discipline, ka.guard_dominance, ka.option_domains, ka.sibling_guards, ka.raw_calls_in_wrappers, ka.arraybox_table, ka.operators, a1.nograd, a1.none_rules, _namespace_classes, km.wrap_namespace],
             "Loud failure: handlers on the rule-lookup/boxing path end in raise and lookups index (A6.raise), guards cannot be bypassed (A6.dom), closed option domains covered (A6.enum), "
             "guard agreement VJP<->JVP (A6.sibling), raw results re-traced (A6.rawcall), no __setitem__/in-place dunders and output checks of grad/value_and_grad/elementwise_grad (A6.ops), "
             "the only declarative ways to drop dependence are locally constant (A1.nograd/none), namespace classification of every exported callable.",
         ),
         "C16": (
-            [ka.operators, kc.zero_paths],
+            [ka.operators, km.products, kc.zero_paths],
             "Operator wiring (A15, A2.tuple, A6.ops): unary_to_nary select/substitute agreement for int/tuple/list argnums and kwargs pass-through, value_and_grad/grad_and_aux return "
             "primal/aux untouched, jacobian = output shape + input shape over the output basis, deriv element [1], holomorphic_grad, hessian, make_hvp, checkpoint, grad_named.",
         ),
